@@ -862,6 +862,17 @@ def run_scenario(case):
             obs["sent_tap"] = [r for r in _TAP["log"]]
         with _SCP_TAP["lock"]:
             obs["scp_excs"] = list(_SCP_TAP["log"])
+        # harness self-check: every response the acceptor handed to send_msg without an exception reached the peer
+        prim = dimse.replace("-", "_")
+        sent = [r for r in obs["sent_tap"] if r["acceptor"] and r["cls"] == prim and r["mid_rsp"] is not None and not r["exc"]]
+        if dimse == "C-ECHO":
+            sent = [r for r in sent if r["mid_rsp"] != (case["msg_id"] + 7) % 65536 or
+                    not (obs.get("live") or {}).get("end") == "answered"]
+        got = [m for m in obs["msgs"] if m["field"] == RSP_FIELD[dimse]]
+        obs["tap_sent"] = len(sent)
+        if obs["end"] == "quiet" and (obs.get("live") or {}).get("end") == "answered" and len(sent) != len(got) \
+                and not obs["inconclusive"]:
+            obs["inconclusive"] = "harness: acceptor sent %d response(s), peer recorded %d" % (len(sent), len(got))
         obs["excs"] = [dict(type=e["type"], where=e["where"], text=e["text"][:120]) for e in taps.State.excs]
     return obs
 
@@ -943,7 +954,7 @@ def _pick_status(rng, fam, dimse, weights=None):
 
 
 def _pick_ds(rng, k, for_pending=True):
-    c = rng.choices(["valid", "none", "empty", "unenc", "str", "int"], [8, 2, 1, 1, 1, 1] if for_pending else [3, 6, 1, 1, 1, 0])[0]
+    c = rng.choices(["valid", "none", "empty", "unenc", "str", "int"], [14, 2, 1, 1, 1, 1] if for_pending else [3, 6, 1, 1, 1, 0])[0]
     if c == "valid":
         return {"t": "valid", "k": k}
     return {"t": c}
@@ -979,7 +990,7 @@ def _gen_find_handler(rng, fam, dimse):
             steps.append({"raw": {"t": rng.choice(["none", "int", "str", "tuple1", "tuple3"])}})
         else:
             # mostly pending in the middle, anything at the end
-            if i < n - 1 and rng.random() < 0.6:
+            if i < n - 1 and rng.random() < 0.75:
                 s = {"t": "int", "v": rng.choice(fam["pending"])}
             else:
                 s = _pick_status(rng, fam, dimse)
@@ -1028,7 +1039,7 @@ def _gen_retrieve_handler(rng, fam, dimse, focus):
     if q < 0.05 * f:
         return {"kind": "gen", "steps": steps, "end": "stop"}, [], dest
     if q < 0.13 * f:
-        cnt = rng.choice([{"t": "none"}, {"t": "str"}, -1, -5, {"t": "list"}, {"t": "numstr"}, {"t": "float"}, {"t": "big"}])
+        cnt = rng.choice([{"t": "none"}, {"t": "str"}, -1, -5, {"t": "list"}, {"t": "big"}])
     else:
         cnt = rng.choice([0, 1, 1, 2, 2, 3, 3, 4, 5])
     steps.append({"count": cnt})
@@ -1118,27 +1129,83 @@ def service_names(dimse_types=None):
     return [n for n, s in SERVICES.items() if dimse_types is None or s["dimse"] in dimse_types]
 
 
+def _P(svc, h, msg_id=7, ts="implicit", cx=(1, 3, 5), subops=(), dest="scp"):
+    return {"svc": svc, "ts": ts, "msg_id": msg_id, "cx": list(cx), "h": h, "subops": list(subops), "dest": dest,
+            "pinned": True}
+
+
+def _pend(k, x=None):
+    return {"s": {"t": "ds", "v": 0xFF00, "x": x} if x else {"t": "int", "v": 0xFF00}, "d": {"t": "valid", "k": k}}
+
+
+def _pinst(k):
+    return {"s": {"t": "int", "v": 0xFF00}, "d": {"t": "inst", "k": k}}
+
+
+# Seed-independent witnesses run first in every tier: minimal witnesses of the defects found with these monitors
+# (so that a listed finding reproduces in every run) and regression guards for the ones already repaired in /repo.
+PINNED = [
+    # Warning status of the service's table must be final (was: non-final in _c_find_scp) / Repository Query exception
+    _P("find-patient", {"kind": "gen", "steps": [{"s": {"t": "int", "v": 0xB001}, "d": {"t": "none"}}, _pend(1)], "end": "stop"}, 0),
+    _P("find-ups-pull", {"kind": "gen", "steps": [_pend(0), {"s": {"t": "int", "v": 0x0001}, "d": {"t": "none"}}, _pend(1)], "end": "stop"}, 65535, "explicit", (201, 203, 9)),
+    _P("find-repo", {"kind": "gen", "steps": [_pend(0), {"s": {"t": "int", "v": 0xB001}, "d": {"t": "none"}}], "end": "stop"}, 256),
+    # Relevant Patient Information Query SCP must answer a Warning status (was: no response at all)
+    _P("find-relpat", {"kind": "gen", "steps": [{"s": {"t": "int", "v": 0x0107}, "d": {"t": "none"}}], "end": "stop"}),
+    # wrong-shaped handler results / status outside 0..65535: no final response (A-ABORT)
+    _P("nget-printer", {"kind": "ret-raw", "raw": {"t": "int", "v": 0}}),
+    _P("find-study", {"kind": "gen", "steps": [_pend(0), {"raw": {"t": "tuple1"}}], "end": "stop"}),
+    _P("echo", {"kind": "ret", "s": {"t": "int", "v": -1}, "d": {"t": "none"}}),
+    # status data set elements that are not status elements overwrite the response's own fields
+    _P("echo", {"kind": "ret", "s": {"t": "ds", "v": 0, "x": {"MessageIDBeingRespondedTo": 4242}}, "d": {"t": "none"}}),
+    # optional status elements leak into later responses
+    _P("find-study", {"kind": "gen", "steps": [_pend(0, {"ErrorComment": "only for match 1"}), _pend(1)], "end": "stop"}, 8, "explicit"),
+    # documented failure codes
+    _P("store-ct", {"kind": "raise"}, 65535),
+    _P("find-mwl", {"kind": "gen", "steps": [_pend(2), {"raise": 1}], "end": "stop"}, 0, "big"),
+    _P("nset-mpps", {"kind": "ret", "s": {"t": "ds-nostatus"}, "d": {"t": "none"}}),
+]
+PINNED_RETRIEVE = [
+    # an object that is no Dataset must consume one of the N announced sub-operations
+    _P("get-patient", {"kind": "gen", "steps": [{"count": 2}, {"s": {"t": "int", "v": 0xFF00}, "d": {"t": "str"}}, _pinst(1), _pinst(2)], "end": "stop"}, 9),
+    _P("move-study", {"kind": "gen", "steps": [{"dest": "scp"}, {"count": 2}, _pinst(0), {"s": {"t": "int", "v": 0xFF00}, "d": {"t": "int"}}, _pinst(2)], "end": "stop"}, 65535),
+    # all N failed -> 0xA702 with both instances listed; mixed -> 0xB000; none -> 0x0000
+    _P("get-study", {"kind": "gen", "steps": [{"count": 2}, _pinst(0), _pinst(1)], "end": "stop"}, 0, "explicit", (1, 3, 5), ["st:A700", "st:C000"]),
+    _P("move-patient", {"kind": "gen", "steps": [{"dest": "scp"}, {"count": 3}, _pinst(0), _pinst(1), _pinst(2)], "end": "stop"}, 1, "implicit", (7, 9, 11), ["ok", "st:B000", "raise"]),
+    _P("get-cir", {"kind": "gen", "steps": [{"count": 2}, _pinst(0), _pinst(1), _pinst(2)], "end": "stop"}, 2),
+]
+
+
 def gen_cases(tier, seed, pid, focus=None):
     """Shared design.  focus None: all services (weighted towards the generator services); 'retrieve': C-GET/C-MOVE."""
     from .common import rng_for
+    import copy
     rng = rng_for(seed, pid, "cases", tier)
     n = 500 if tier == "quick" else 6000
     names_all = service_names()
     finds = service_names(("C-FIND",))
     retr = service_names(("C-GET", "C-MOVE"))
     rest = [x for x in names_all if x not in finds and x not in retr]
-    cases = []
+    cases = copy.deepcopy(PINNED_RETRIEVE if focus == "retrieve" else PINNED + PINNED_RETRIEVE)
     if focus == "retrieve":
-        for i in range(n):
+        i = 0
+        while len(cases) < n:
             cases.append(gen_case(rng, retr[i % len(retr)] if i < 2 * len(retr) else rng.choice(retr), focus))
+            i += 1
         return cases
     # every service at least twice, then weighted random
     for nm in names_all:
         for _ in range(2):
             cases.append(gen_case(rng, nm, focus))
+    rest_types = sorted({SERVICES[x]["dimse"] for x in rest})
     while len(cases) < n:
         r = rng.random()
-        pool = finds if r < 0.40 else retr if r < 0.70 else rest
+        if r < 0.40:
+            pool = finds
+        elif r < 0.68:
+            pool = retr
+        else:
+            t = rng.choice(rest_types)          # C-ECHO, C-STORE and each DIMSE-N service equally often
+            pool = [x for x in rest if SERVICES[x]["dimse"] == t]
         cases.append(gen_case(rng, rng.choice(pool), focus))
     return cases
 
@@ -1267,7 +1334,12 @@ def model(case, quirks=frozenset()):
         if code is None or not documented_ok:
             # failure / unknown status (or C001/C002): no data set promised; if one is sent it must be the handler's
             dcanon = build_dataset(d)[1] if d["t"] == "valid" else None
+            if code is not None and category(code) in ("success", "warning") and d["t"] in ("unenc", "str", "int"):
+                sset = sset | set(fam["unenc"])     # Warning-class code not listed for the service: either reading
+                extras = None
             final(sset, lab, extras, data=("any-or", dcanon))
+            if extras is None:
+                exp[-1]["extras"] = None
             return out
         if d["t"] == "valid":
             final(sset, lab, extras, data=build_dataset(d)[1])
@@ -1286,7 +1358,7 @@ def model(case, quirks=frozenset()):
         t = h["raw"]["t"]
         if dimse == "C-FIND" and t == "empty-list":
             final({0x0000}, "exhausted", computed=True)
-        elif dimse == "C-FIND" and t == "list-pairs":
+        elif dimse == "C-FIND" and t == "list-pairs" and svc["family"] != "relpat":
             exp.append(dict(kind="pending", status={0xFF00}, cls="int-known", extras={},
                             data=build_dataset({"t": "valid", "k": 1})[1], counters=None, failed=None))
             final({0x0000}, "int-known")
@@ -1529,6 +1601,35 @@ def model(case, quirks=frozenset()):
         out["classes"].add("fewer-than-announced")
     computed_final("exhausted")
     return out
+
+
+def last_result_class(case, obs):
+    """Semantic class of the handler result the SCP was processing last (for mechanism keys; never an input value)."""
+    h = case["h"]
+
+    def sclass(sp):
+        st = resolve_status(sp)
+        if st[0] == "code" and not 0 <= st[1] <= 0xFFFF:
+            return "status-out-of-range"
+        return None
+    if h["kind"] == "ret-raw":
+        return "undocumented-return-shape"
+    if h["kind"] == "ret":
+        return sclass(h["s"]) or "documented-behaviour"
+    if h["kind"] != "gen":
+        return "documented-behaviour"
+    last = None
+    for e in obs.get("hlog") or []:
+        if len(e) > 2 and e[1] == "yield":
+            last = e[2]
+    if last is None or last >= len(h["steps"]):
+        return "documented-behaviour"
+    st = h["steps"][last]
+    if "raw" in st:
+        return "undocumented-yield-shape"
+    if "s" in st:
+        return sclass(st["s"]) or "documented-behaviour"
+    return "documented-behaviour"
 
 
 def responses_of(obs):
